@@ -52,6 +52,8 @@ def positions(sc, res):
             out.append({"c": r["c"], "ep": r["e"], "dp": r["dp"], "j": r["j"], "g": g})
         elif g in ("cond", "unless"):
             nm = r["c"].split(".", 1)[1]
+            if (prog["cbs"].get(r["c"].split("/", 1)[1]) or {}).get("prop") and r["e"] == 0:
+                continue  # a property guard is READ when names are resolved (construction): not an event
             if nm in solo and (r["c"], r["e"]) not in seen and r["dp"] == 0:
                 seen.add((r["c"], r["e"]))
                 out.append({"c": r["c"], "ep": r["e"], "dp": None, "j": None, "g": g})
@@ -129,7 +131,7 @@ class C04(Campaign):
                          sends_per=(1, 2), sends_jlt=(1, 2), allow=[False, False, True],
                          rtc=[True, True, False], p_validator=0.35, p_unknown_event=0.05, n_ops=(3, 10),
                          p_action=0.45, p_state_action=0.4, p_conv=0.3, states=(2, 4), extra_trans=(0, 4),
-                         p_cond=0.4, p_unless=0.2)
+                         p_cond=0.4, p_unless=0.2, p_prop_guard=0.15)
 
     def scenario(self, rnd, tier):
         sc = super().scenario(rnd, tier)
@@ -217,7 +219,7 @@ class C04(Campaign):
                 bump("probe.crash_points_sampled_40_of_many")
             variants = []
             for p in pos:
-                cls = rnd.choice(["SimFault", "SimLookup", "SimValue", "SimBaseFault"])
+                cls = rnd.choice(["SimFault", "SimLookup", "SimValue", "SimBaseFault", "SimRuntime", "SimAttr"])
                 variants.append(inject(base, p, cls))
             # double faults: two crash points in different operations
             allp = positions(base, bres)
